@@ -176,16 +176,43 @@ func checkWrite(c *writeCase) (string, bool) {
 func TestP2WriteFaults(t *testing.T) {
 	rec := ev.New("C13", "writefaults")
 	defer rec.Finish(t)
-	rec.Rule("for each generated font (x 4 formats and WritePDF) and metrics value (Metrics.Write): a write fault at EVERY write-call index 0..calls and at EVERY byte offset 0..bytes (short write + error), each as a persistent fault (all later calls fail too) and as a transient one (later calls succeed), counted on a fault-free dry run first. Oracle: a delivered fault makes the writer return a non-nil error, without panic. Non-trivial: fault delivered; distinct by (value, form, point).")
+	rec.Rule("for each generated font (x 4 formats and WritePDF; a quarter of them with one charstring of 600-1800 bytes, i.e. a single write spanning several internal buffers) and metrics value (Metrics.Write): a write fault at EVERY write-call index 0..calls and at EVERY byte offset 0..bytes (short write + error), each as a persistent fault (all later calls fail too) and as a transient one (later calls succeed), counted on a fault-free dry run first. Oracle: a delivered fault makes the writer return a non-nil error, without panic. Non-trivial: fault delivered; distinct by (value, form, point).")
 	ev.SetupRapid(48, 1200)
+	caseNo := 0
+	shard, _ := ev.Shard()
 	rapid.Check(t, func(t *rapid.T) {
 		var base writeCase
-		if rapid.IntRange(0, 3).Draw(t, "kind") == 0 {
+		caseNo++
+		// the second case of every shard is a long charstring written through
+		// the eexec layer (PFA, binary or WritePDF by shard), so that this class
+		// occurs in every run whatever is drawn
+		forced := caseNo == 2
+		if !forced && rapid.IntRange(0, 3).Draw(t, "kind") == 0 {
 			base.Metrics = inputs.Metrics(t)
 			base.Form = 6
 		} else {
 			base.Font = inputs.Font(t, 4)
 			base.Form = rapid.IntRange(1, 5).Draw(t, "form")
+			if forced {
+				base.Form = []int{1, 3, 5}[shard%3]
+			}
+			if forced || rapid.IntRange(0, 3).Draw(t, "longglyph") == 0 {
+				// one charstring of 600-1800 bytes: a single write into the
+				// encrypting / hex-armouring layers that spans several of
+				// their internal buffers
+				g := &type1.Glyph{WidthX: 500}
+				g.MoveTo(10, 10)
+				lo := 150
+				if forced {
+					lo = 300 // > 1024 bytes for certain
+				}
+				for i, n := 0, rapid.IntRange(lo, 450).Draw(t, "longsegs"); i < n; i++ {
+					g.LineTo(float64(200+(i*37)%1300), float64(-150+(i*91)%1700))
+				}
+				g.ClosePath()
+				base.Font.Glyphs["longglyph"] = g
+				rec.Class("long-charstring")
+			}
 		}
 		var cw iofault.CountWriter
 		if err := doWrite(&base, nil, &cw); err != nil {
